@@ -122,6 +122,61 @@ impl PGen {
     }
 }
 
+/// `let r = W(e)` for every type constructor W around an element `e` whose type is still an
+/// inference variable when the type of `r` is recorded (call of a generic function, field
+/// access, nullary constructor of a generic enum, empty vec, result of an un-annotated closure,
+/// call of a plain function), one and two constructors deep. The element type is fixed later
+/// (by a second value unified with the first in an array literal), so the compiler's final type
+/// is concrete and the hover has to report exactly that.
+fn late_programs() -> Vec<(String, String)> {
+    // (name, wrap) — `{}` is the element expression
+    let wrappers: [(&str, &str); 9] = [
+        ("ref", "ref({})"),
+        ("vec", "vec_push(vec_new(), {})"),
+        ("array", "[{}]"),
+        ("array2", "[{}, {}]"),
+        ("tuple", "({}, true)"),
+        ("fn", "|u: unit| {}"),
+        ("app-enum", "Som({})"),
+        ("app-struct", "Bx { v: {} }"),
+        ("tuple-left", "(\"s\", {})"),
+    ];
+    // (name, late expression, same-typed expression that fixes the type)
+    let sources: [(&str, &str, &str); 7] = [
+        ("generic-call", "idg(1)", "2"),
+        ("field", "p.x", "2"),
+        ("nullary-ctor", "Non", "Som(2)"),
+        ("empty-vec", "vec_new()", "vec_push(vec_new(), 2)"),
+        ("closure-result", "f(3)", "2"),
+        ("fn-call", "next(1)", "2"),
+        ("method-call", "p.getx()", "2"),
+    ];
+    let prelude = "enum Opt[T] { Non, Som(T) }\nstruct Pt { x: int32, y: bool }\nimpl Pt { fn getx(self: Pt) -> int32 { self.x } }\nstruct Bx[T] { v: T }\nfn idg[T](a: T) -> T { a }\nfn next(n: int32) -> int32 { n + 1 }\n\n";
+    let mut out = Vec::new();
+    let fill = |w: &str, e: &str| w.replace("{}", e);
+    let mut emit = |name: String, late: String, fixed: String| {
+        let src = format!(
+            "{}fn main() {{\n    let p = Pt {{ x: 1, y: true }};\n    let f = |q| q + 1;\n    let r = {};\n    let k = {};\n    let both = [r, k];\n    let again = r;\n    ()\n}}\n",
+            prelude, late, fixed
+        );
+        out.push((name, src));
+    };
+    for (wn, w) in wrappers.iter() {
+        for (sn, e, fx) in sources.iter() {
+            emit(format!("late:{}:{}", wn, sn), fill(w, e), fill(w, fx));
+        }
+    }
+    // two constructors deep (every ordered pair), over three representative sources
+    for (wn1, w1) in wrappers.iter() {
+        for (wn2, w2) in wrappers.iter() {
+            for (sn, e, fx) in [sources[0], sources[2], sources[1]].iter() {
+                emit(format!("late:{}>{}:{}", wn1, wn2, sn), fill(w1, &fill(w2, e)), fill(w1, &fill(w2, fx)));
+            }
+        }
+    }
+    out
+}
+
 fn token_bounds(src: &str) -> Vec<(usize, usize, lexer::TokenKind)> {
     lexer::lex(src).iter().map(|t| (u32::from(t.range.start()) as usize, u32::from(t.range.end()) as usize, t.kind)).collect()
 }
@@ -480,11 +535,12 @@ struct Tally {
 }
 
 #[allow(clippy::too_many_arguments)]
-fn run_text(th: usize, ti: usize, t: &Text, dir: &Path, watch: &Watch, sh: &Shared, seed: u64, tie: bool, pos_cap: usize) {
+fn run_text(th: usize, ti: usize, t: &Text, dir: &Path, watch: &Watch, sh: &Shared, seed: u64, tie: bool, pos_cap: usize, hov_cap: usize) {
     let path = t.path.clone().unwrap_or_else(|| dir.join("main.gom"));
     let src = t.src.as_str();
     let mut rng = Rng::new(seed ^ (ti as u64).wrapping_mul(0x9E37));
-    let poss = positions(src, &mut rng, pos_cap);
+    let hover_only = t.kind == "hover-corpus";
+    let poss = if hover_only { Vec::new() } else { positions(src, &mut rng, pos_cap) };
     let li = line_index::LineIndex::new(src);
     let mut tally = Tally::default();
     let mut seen_panic: HashSet<(u8, String)> = HashSet::new();
@@ -683,9 +739,10 @@ fn run_text(th: usize, ti: usize, t: &Text, dir: &Path, watch: &Watch, sh: &Shar
     }
     // hover agreement on programs the compiler accepts
     let mut hov_n = 0;
-    if (t.kind == "full" || t.kind == "mutation") && t.path.is_none() {
+    if (t.kind == "full" || t.kind == "mutation" || hover_only) && t.path.is_none() {
         if let Guarded::Done(Ok(comp)) = watch.guarded(th, [ti as u64, 0, 0, 10], || pipeline::compile(&path, src)) {
             let mut seen = HashSet::new();
+            let mut nodes: Vec<(u32, u32, &'static str, String, String)> = Vec::new();
             for (s, e, kind, ty) in collect_tast(&comp.tast) {
                 if (e as usize) > src.len() || !seen.insert((s, e)) {
                     continue;
@@ -695,6 +752,30 @@ fn run_text(th: usize, ti: usize, t: &Text, dir: &Path, watch: &Watch, sh: &Shar
                 if word.is_empty() || !word.bytes().all(|b| b.is_ascii_alphanumeric() || b == b'_') || word.as_bytes()[0].is_ascii_digit() {
                     continue;
                 }
+                nodes.push((s, e, kind, ty, word.to_string()));
+            }
+            // long programs: every identifier whose type has a type constructor in it (up to 6 per
+            // distinct node kind + type), and a seeded sample of the identifiers of plain type
+            if nodes.len() > hov_cap {
+                let mut per_type: std::collections::HashMap<(&'static str, String), usize> = std::collections::HashMap::new();
+                let total = nodes.len();
+                let mut kept = Vec::new();
+                for n in nodes.into_iter() {
+                    let compound = n.3.contains('[') || n.3.contains('(') || n.3.contains("->") || n.3.contains("dyn ");
+                    if compound {
+                        let c = per_type.entry((n.2, n.3.clone())).or_default();
+                        *c += 1;
+                        if *c <= 6 {
+                            kept.push(n);
+                        }
+                    } else if rng.below(total) < hov_cap {
+                        kept.push(n);
+                    }
+                }
+                nodes = kept;
+            }
+            for (s, _e, kind, ty, word) in nodes {
+                let word = word.as_str();
                 let e = s + word.len() as u32;
                 let ctx = cst_context(src, &path, s);
                 // cursor on the first byte of the identifier and on its last byte
@@ -706,9 +787,11 @@ fn run_text(th: usize, ti: usize, t: &Text, dir: &Path, watch: &Watch, sh: &Shar
                         Guarded::Panic(p) => format!("panic:{}", crash::site_of(&p)),
                     };
                     hov_n += 1;
+                    // the text is only needed for a replay: leave it out when hover and TAST agree literally
+                    let agrees = got == format!("ok:{}", ty);
                     sh.push(format!(
                         "HOV\t{}\t{}\t{}\t{}\t{}\t{}\t{}\t{}\t{}\t{}",
-                        t.id, off, l, c, kind, esc_line(word), esc_line(&ty), esc_line(&got), ctx, esc_line(src)
+                        t.id, off, l, c, kind, esc_line(word), esc_line(&ty), esc_line(&got), ctx, if agrees { String::new() } else { esc_line(src) }
                     ));
                     if e <= s + 1 {
                         break;
@@ -823,8 +906,22 @@ pub fn main(args: &util::Args) {
     // the same text reached by two routes (e.g. two prefixes of one-token soups) is explored once
     {
         let mut seen: HashSet<(String, Option<PathBuf>)> = HashSet::new();
-        texts.retain(|t| seen.insert((t.src.clone(), t.path.clone())));
+        texts.retain(|t| seen.insert((if t.kind == "hover-corpus" { format!("\u{0}hover\u{0}{}", t.src) } else { t.src.clone() }, t.path.clone())));
     }
+    if !args.rest.iter().any(|a| a == "--file") {
+        let nb = bases.len();
+        for (k, (id, src)) in late_programs().into_iter().enumerate() {
+            texts.push(Text { id, kind: "full", src, base: nb + k, path: None });
+        }
+        // hover agreement over EVERY pipeline corpus program, whatever its size (no position sweep)
+        for d in util::corpus_pipeline_dirs() {
+            if let Ok(s) = std::fs::read_to_string(d.join("main.gom")) {
+                texts.push(Text { id: format!("hovercorpus:{}", d.file_name().unwrap().to_string_lossy()), kind: "hover-corpus", src: s, base: 0, path: None });
+            }
+        }
+    }
+    // the long hover-only texts first, so that they do not form the tail of the run
+    texts.sort_by_key(|t| if t.kind == "hover-corpus" { (0, usize::MAX - t.src.len()) } else { (1, 0) });
     let sh = Arc::new(Shared { lines: Mutex::new(Vec::new()), out: args.out.clone() });
     let nthreads = std::thread::available_parallelism().map(|n| n.get()).unwrap_or(4).min(16);
     let texts = Arc::new(texts);
@@ -841,6 +938,7 @@ pub fn main(args: &util::Args) {
     );
     let next = Arc::new(AtomicUsize::new(0));
     let pos_cap = if thorough { 4000 } else { 1200 };
+    let hov_cap = if thorough { 3000 } else { 250 };
     // the model tie is run on every small text (≤ 400 bytes) and on a sample of the rest
     std::thread::scope(|s| {
         for th in 0..nthreads {
@@ -860,7 +958,7 @@ pub fn main(args: &util::Args) {
                     }
                     let t = &texts[i];
                     let tie = t.src.len() <= 400 || i % 7 == 0;
-                    run_text(th, i, t, &dir, &watch, &sh, seed, tie, pos_cap);
+                    run_text(th, i, t, &dir, &watch, &sh, seed, tie && t.kind != "hover-corpus", pos_cap, hov_cap);
                 }
             });
         }
